@@ -178,6 +178,14 @@ func (w *Worker) intrinsic(fn *ssa.Function, args []Val) (Val, bool) {
 		return Slice{s.Obj, s.Off, s.Len, s.Len, 1}, true
 	case "bytes.IndexByte", "internal/bytealg.IndexByte", "strings.IndexByte", "internal/bytealg.IndexByteString":
 		return w.indexByte(w.bytesOf(args[0]), args[1].(*Term)), true
+	case "internal/bytealg.Count", "internal/bytealg.CountString":
+		bs := w.bytesOf(args[0])
+		c := args[1].(*Term)
+		r := ts.Const(64, 0)
+		for _, b := range bs {
+			r = ts.Bin(OAdd, r, ts.Ite(ts.Eq(b, c), ts.Const(64, 1), ts.Const(64, 0)))
+		}
+		return r, true
 	case "bytes.Equal", "internal/bytealg.Equal":
 		return w.bytesEq(w.bytesOf(args[0]), w.bytesOf(args[1])), true
 	case "bytes.EqualFold", "strings.EqualFold":
@@ -192,12 +200,19 @@ func (w *Worker) intrinsic(fn *ssa.Function, args []Val) (Val, bool) {
 		}
 		return r, true
 	case "math/rand.Uint32":
+		if w.randConcrete {
+			return ts.Const(32, 0x12345678), true
+		}
 		return w.freshVar("rand.Uint32", 32), true
 	case "math/rand.Read", "crypto/rand.Read":
 		s := args[0].(Slice)
 		o := w.mut(s.Obj)
 		for i := 0; i < s.Len; i++ {
-			o.Leaves[s.Off+i] = w.freshVar("rand.Read", 8)
+			if w.randConcrete {
+				o.Leaves[s.Off+i] = ts.Const(8, uint64(i*7+3))
+			} else {
+				o.Leaves[s.Off+i] = w.freshVar("rand.Read", 8)
+			}
 		}
 		return Tuple{ts.Const(64, uint64(s.Len)), Iface{}}, true
 	case "(*sync.Pool).Get":
